@@ -24,6 +24,10 @@ struct track
 {
     int fd4;
     int fd6;
+    /* a socket keeps its local address across connect(AF_UNSPEC); a
+       second bind() fails with EINVAL if the first named a port */
+    bool bound4;
+    bool bound6;
     int fd_reg_id;
     double tcp_connect_timeout;
     struct tcp_opts tcp_opts;
@@ -126,6 +130,12 @@ static int *track_get_current_fd_ptr(struct track *track)
 	&track->fd4 : &track->fd6;
 }
 
+static bool *track_get_current_bound_ptr(struct track *track)
+{
+    return track_get_current_family(track) == AF_INET ?
+	&track->bound4 : &track->bound6;
+}
+
 static int track_get_current_fd(struct track *track)
 {
     int *fd = track_get_current_fd_ptr(track);
@@ -204,7 +214,9 @@ static void track_connect_next(struct track *track)
 	return;
     }
 
-    if (track->local_ip != NULL) {
+    bool *bound = track_get_current_bound_ptr(track);
+
+    if (track->local_ip != NULL && !*bound) {
 	struct sockaddr_storage laddr;
 	int64_t scope = track_get_current_scope(track);
 
@@ -221,6 +233,8 @@ static void track_connect_next(struct track *track)
 	    track_connect_next(track);
 	    return;
 	}
+
+	*bound = true;
     }
 
     ut_assert(track->fd_reg_id == -1);
